@@ -179,6 +179,13 @@ def run(tier, seed):
     labels6 = {c[4]: (c[0], c[1], c[2], c[3]) for i, c in enumerate(g6) if i in k6}
     do_source('S6-granularity', '\n'.join(c[3] for i, c in enumerate(g6) if i in k6) + '\n', sorted(labels6), [(2000, 2050)], labels=labels6, stricts=(False, True),
               arduino={'step': 3600, 'win': 2 * 3600})
+    # ---- S8: FORMAT x LETTER product (abbreviation assembly)
+    f8 = mutants.format_letters()
+    kept8, rej8 = zic_filter([(i, c[3]) for i, c in enumerate(f8)], 'S8')
+    k8 = {k for k, _ in kept8}
+    cov['format_letter_zones'] = len(k8)
+    labels8 = {c[4]: (c[0], c[1], c[2], c[3]) for i, c in enumerate(f8) if i in k8}
+    do_source('S8-format', '\n'.join(c[3] for i, c in enumerate(f8) if i in k8) + '\n', sorted(labels8), [(2000, 2050)], labels=labels8, arduino={'step': 6 * 3600, 'win': 3600})
     # ---- S7: policies with 3..12 transitions per year - what the compiler emits must fit the processors' buffers
     d7 = mutants.dense_policies()
     labels7 = {c[4]: (c[0], c[1], c[2], c[3]) for c in d7}
